@@ -560,6 +560,12 @@ func (e *Env) evalCall(n *SCall) Val {
 		// strings.Count(s, sep), the uninterpreted function its model uses
 		fn := e.vc().Fun("fn:strings.Count", []string{"String", "String"}, "Int")
 		return Val{T: intT, S: app(fn, arg(0).S, arg(1).S)}
+	case "pathjoin2", "pathjoin3":
+		fn := e.vc().Fun("fn:filepath.Join", []string{"Int", "String", "String", "String"}, "String")
+		if n.Fun == "pathjoin2" {
+			return Val{T: stringT, S: app(fn, "2", arg(0).S, arg(1).S, StrLit(""))}
+		}
+		return Val{T: stringT, S: app(fn, "3", arg(0).S, arg(1).S, arg(2).S)}
 	case "pathclean":
 		fn := e.vc().Fun("fn:filepath.Clean", []string{"String"}, "String")
 		return Val{T: stringT, S: app(fn, arg(0).S)}
